@@ -148,6 +148,7 @@ func (H) Execute(scAny any, cfg simrt.Config, st *core.Stats) (*simrt.Outcome, *
 	for range sc.Callers {
 		results = append(results, nil)
 	}
+	cfg.StopWhenClientsDone = true // goroutines of the implementation itself (none on the pinned tree) do not keep a run alive
 	s := simrt.New(cfg)
 	s.Go(func() {
 		var wg ssync.WaitGroup
@@ -229,7 +230,7 @@ func (H) Execute(scAny any, cfg simrt.Config, st *core.Stats) (*simrt.Outcome, *
 	if out.Truncated {
 		return out, core.NoProgress(out)
 	}
-	if out.Stuck {
+	if core.Deadlocked(out) {
 		return out, &core.Violation{Signature: "deadlock", Detail: fmt.Sprint("Do never returned: ", out.StuckTasks)}
 	}
 	total, winner := 0, -1
